@@ -74,7 +74,9 @@ type runner struct {
 
 func newRunner(res *caseResult, dir string, sc *schema, caseID, placementName string, rnd *rand.Rand, extra func(o *node.Options)) (*runner, error) {
 	r := &runner{res: res, dir: dir, sc: sc, caseID: caseID, placement: placementName, rnd: rnd, m: node.NewModel(slotMs)}
-	r.opts = node.Options{Dir: dir}
+	// no pacing of memory database creation: several memory databases of a shard may be created within one tick of
+	// lindb's 5ms clock (that used to lose data, see C11/memdb/same-tick-...; the behaviour stays exercised)
+	r.opts = node.Options{Dir: dir, NoTickGuard: true}
 	for i := 0; i < sc.Shards; i++ {
 		r.opts.ShardIDs = append(r.opts.ShardIDs, models.ShardID(i))
 	}
